@@ -2,6 +2,8 @@
 package main
 
 import (
+	"net"
+	"strconv"
 	"encoding/json"
 	"fmt"
 	"math/rand"
@@ -29,6 +31,9 @@ type Case struct {
 	Entries   []Entry `json:"entries,omitempty"`
 	Instances int     `json:"instances"`
 	Shared    bool    `json:"shared_client"`
+	// ReflectElsewhere: the method list is taken from another port (reflect_port), where a second
+	// server of the same service listens; calls belong to the target, none to that other port
+	ReflectElsewhere bool `json:"reflect_port_elsewhere,omitempty"`
 	TimeoutMs int     `json:"timeout_ms"`
 	Rows      int     `json:"rows,omitempty"`
 	Shots     int     `json:"shots,omitempty"`
@@ -36,6 +41,7 @@ type Case struct {
 }
 
 var tgt *vkit.GRPCTarget
+var reflTgt *vkit.GRPCTarget
 
 func marker(vid int) string { return fmt.Sprintf("vid-%d", vid) }
 
@@ -157,6 +163,11 @@ func gunConf(c Case, typ string) map[string]any {
 	g := map[string]any{"type": typ, "target": tgt.Addr, "timeout": fmt.Sprintf("%dms", c.TimeoutMs)}
 	if c.Shared && typ == "grpc" {
 		g["shared-client"] = map[string]any{"enabled": true, "client-number": 2}
+	}
+	if c.ReflectElsewhere && reflTgt != nil {
+		_, port, _ := net.SplitHostPort(reflTgt.Addr)
+		rp, _ := strconv.Atoi(port)
+		g["reflect_port"] = rp
 	}
 	return g
 }
@@ -772,6 +783,11 @@ func main() {
 		res.Write()
 		return
 	}
+	if reflTgt, err = vkit.NewGRPCTarget(); err != nil {
+		res.Inconclusive(true, "cannot start the second grpc server: %v", err)
+		res.Write()
+		return
+	}
 	rng := vkit.Rand("c20")
 	n := vkit.N(40, 800)
 	vid := 1
@@ -794,7 +810,15 @@ func main() {
 				c.Entries = append(c.Entries, genEntry(rng, vid))
 				vid++
 			}
+			c.ReflectElsewhere = i%5 == 1
+			reflTgt.ResetCalls()
 			runGrpcJSON(res, c)
+			if c.ReflectElsewhere {
+				if n := len(reflTgt.Calls()); n > 0 {
+					res.Violate("C20/grpcjson/calls-at-reflection-port", fmt.Sprintf("%d calls arrived at the port that is only named as reflect_port; the gun's target is another port", n), c)
+				}
+				res.Count("pools_with_reflect_port_elsewhere", 1)
+			}
 		}
 		res.Eval(vkit.JSON(c), true)
 		if i%13 == 0 {
